@@ -216,7 +216,8 @@ func vPersistRun(tr *vTrace, id string, salt int64, bytesN int) {
 	s := vPFill(size, salt)
 	defer s.Close()
 	// elapsed time between save and load: move the clock origin of the saved cache back
-	elapsed := []time.Duration{0, 0, time.Second, 10 * time.Second, 5 * time.Minute, 3 * time.Hour}[rnd.Intn(6)]
+	// (75 s and 5000 s put the load inside the coarse wheel tick that holds the 90 s / 2 h deadlines)
+	elapsed := []time.Duration{0, 0, time.Second, 10 * time.Second, 75 * time.Second, 5 * time.Minute, 5000 * time.Second, 3 * time.Hour}[rnd.Intn(8)]
 	for tries := 0; tries < 20; tries++ {
 		now := s.timerwheel.clock.NowNano() + elapsed.Nanoseconds()
 		clash := false
@@ -259,7 +260,51 @@ func vPersistRun(tr *vTrace, id string, salt int64, bytesN int) {
 		rec["wall"] = wall
 		rec["err"] = kind
 		rec["origin_ok"] = vb(originOK)
+		// what the loaded cache serves right away (before its first tick): key/value pairs of the hits
+		served := [][]int{}
+		if fault == "none" && kind == "none" {
+			for k := 0; k <= 80; k++ {
+				if v, ok := s2.Get(k); ok {
+					served = append(served, []int{k, v})
+				}
+			}
+		}
+		rec["served"] = served
 		tr.Emit(rec)
+		// C04 for restored entries: let the clock pass the earliest restored deadline and tick twice as the
+		// ticker does (1.1 s and 2.2 s after it): everything due 2.1 s before the second tick must be gone
+		if fault == "none" && kind == "none" {
+			var dmin int64
+			s2.RangeEntry(func(e *Entry[int, int]) {
+				if d := e.expire.Load(); d != 0 && (dmin == 0 || d < dmin) {
+					dmin = d
+				}
+			})
+			if dmin != 0 {
+				clk := s2.timerwheel.clock
+				tick := func(at int64) {
+					s2.policyMu.Lock()
+					clk.Start = clk.Start.Add(-time.Duration(at - clk.NowNano()))
+					clk.RefreshNowCache()
+					s2.timerwheel.advance(0, s2.removeEntry)
+					s2.policyMu.Unlock()
+				}
+				base := dmin
+				if n := clk.NowNano(); n > base {
+					base = n
+				}
+				tick(base + 1100*int64(time.Millisecond))
+				tick(base + 2200*int64(time.Millisecond))
+				due, overdue := 0, 0
+				s2.RangeEntry(func(e *Entry[int, int]) {
+					if d := e.expire.Load(); d != 0 && d <= base+100*int64(time.Millisecond) {
+						overdue++
+					}
+				})
+				due, _ = rec["resident"].(int)
+				tr.Emit(vRec{"ev": "reclaim", "id": id, "tsize": tsize, "loaded": due, "overdue": overdue})
+			}
+		}
 		s2.Close()
 	}
 	// C11: clean round trips into the same, a smaller and a larger cache
